@@ -504,6 +504,58 @@ pub fn check_world(spec: &RichSpec, l: &mut Local) -> Result<(), String> {
                         }
                     }
                 }
+                // forged proof of holding under a FOREIGN owner: an account whose bytes are a perfect token account {position mint, owner =
+                // attacker, amount 1, initialized} - anybody can write such bytes into an account of a program of their own.  Owner programs:
+                // one that accepts everything, and look-alikes that share the last / first byte with a real token program.
+                {
+                    let pmint = match &ent.class {
+                        Class::Position(p) => w.positions[*p].mint,
+                        Class::Bundle(b) => w.bundles[*b].mint,
+                        _ => unreachable!(),
+                    };
+                    let lookalike = |real: &Pubkey, keep_last: bool| {
+                        let mut b = [0x42u8; 32];
+                        if keep_last {
+                            b[31] = real.to_bytes()[31];
+                        } else {
+                            b[0] = real.to_bytes()[0];
+                        }
+                        Pubkey::new_from_array(b)
+                    };
+                    let owners = [
+                        ("a program that accepts every instruction", crate::rt::obliging_program()),
+                        ("a program whose id ends like Token-2022's", lookalike(&TOKEN22, true)),
+                        ("a program whose id ends like the Token program's", lookalike(&TOKEN, true)),
+                        ("a program whose id starts like Token-2022's", lookalike(&TOKEN22, false)),
+                    ];
+                    for (what, owner) in owners {
+                        for len in [165usize, 170] {
+                            let mut data = vec![0u8; len];
+                            data[0..32].copy_from_slice(pmint.as_ref());
+                            data[32..64].copy_from_slice(attacker_key.as_ref());
+                            data[64..72].copy_from_slice(&1u64.to_le_bytes());
+                            data[108] = 1; // AccountState::Initialized
+                            if len > 165 {
+                                data[165] = 2; // AccountType::Account
+                            }
+                            let mut wf = w.clone();
+                            let forged = Pubkey::new_unique();
+                            wf.bank.set(forged, crate::rt::Acct { lamports: 10_000_000, data, owner, executable: false });
+                            let mut x = as_attacker.clone();
+                            let mut replaced = false;
+                            for m in x.accounts.iter_mut() {
+                                if m.pubkey == tok_account {
+                                    m.pubkey = forged;
+                                    replaced = true;
+                                }
+                            }
+                            if replaced {
+                                let _ = what;
+                                mutant("forged_token_account_under_a_foreign_owner_program", &wf, &x, true, l)?;
+                            }
+                        }
+                    }
+                }
                 // delegates with amount 0 / 1 / 2, and amounts that are 1 only after a careless narrowing (the approved amount is not bounded by
                 // the balance: the token program accepts any u64)
                 for n in [0u64, 1, 2, (1 << 8) + 1, (1 << 16) + 1, (1 << 32) + 1, (5 << 32) + 1, (1 << 63) + 1, u64::MAX] {
